@@ -450,6 +450,10 @@ Definition create (fs : list fdesc) (now : Z) (returning reversed : bool) (prio 
            (o : op) (base : Z) (recs : list (list goval))
   : option (list (list goval) * list (list dbval) * Z) :=
   let wrap x := match x with Some (a, rows) => Some (a, rows, 0) | None => None end in
+  (* an empty slice (of records or of maps) is refused: ErrEmptySlice *)
+  (* (CreateInBatches over an empty slice issues no statement at all) *)
+  let is_call_per_record := match o with OpStruct | OpMap | OpBatches _ => true | _ => false end in
+  if negb is_call_per_record && match recs with [] => true | _ => false end then None else
   match o with
   | OpStruct => wrap (create_seq fs now returning reversed prio prio_hasdef true base (map (fun r => [r]) recs))
   | OpSlice | OpPtrSlice => wrap (create_seq fs now returning reversed prio prio_hasdef false base [recs])
